@@ -67,7 +67,6 @@ def epoch_families(thorough):
        None, 400, 400),
       # the same on interior nodes with one unrelated non-topological mutator before or after
       ("epoch-noise", dict(Placement='"head0"', MaxMut=2, CondInterior="TRUE", NeedCond="TRUE",
-                           MidSweeps="TRUE" if thorough else "FALSE",
                            EpochMuts=tla_set(NONTOPO if thorough else ("SetCondition", "AddBinding")),
                            Skeletons=tla_set(ALL_SKELETONS if thorough else
                                              ("chain3", "chain4", "diamond4"))),
@@ -76,14 +75,14 @@ def epoch_families(thorough):
       ("epoch-sim", dict(Placement='"any"', MaxMut=4, MidSweeps="TRUE", SweepSize=2, MaxSS=1,
                          MaxVars=4, MaxBindings=5, MaxOrigins=8, MaxData=3, INVARIANTS=["ExportEpoch"],
                          EpochMuts=tla_set(NONTOPO + PASTE), SweepOrders=tla_set(["up", "down"])),
-       4000 if thorough else 120, None, 5),
+       1000 if thorough else 120, None, 5),
   ]
   if thorough:
     fams += [
-        ("epoch-cond-any", dict(Placement='"any"'), None, 9000, 9000),
+        ("epoch-cond-any", dict(Placement='"any"'), None, 9000, 5000),
         # the per-transition family lifted to the skeletons: one mutator of any kind
         ("epoch-any1", dict(EpochMuts=tla_set(NONTOPO + PASTE), MaxSS=1, MaxVars=3, MaxBindings=4,
-                            MaxOrigins=6), None, 2000, 400),
+                            MaxOrigins=6, Placement='"head0"'), None, 1000, 100),
     ]
   return fams
 
@@ -466,10 +465,11 @@ def main():
   run.put("pathcond_distinct_by_family", {k: len(v) for k, v in sorted(PATHCOND.items())})
   # every skeleton's (walked path, conditioned interior node, condition) was judged, including
   # conditions that cannot hold (a sibling binding of the goal) and ones that can
-  cond_combos = PATHCOND.get("epoch-cond", set())
-  common.require(len({(c[0], c[3], c[4]) for c in cond_combos}) >= 100,
-                 "vacuity: epoch-cond covered only %d (graph, node, condition) combinations" % len(
-                     {(c[0], c[3], c[4]) for c in cond_combos}))
+  cond_combos = {(c[0], c[3], c[4]) for c in PATHCOND.get("epoch-cond", set())}
+  run.put("epoch_cond_graph_node_condition_combos", len(cond_combos))
+  common.require(len(cond_combos) >= 200,
+                 "vacuity: epoch-cond covered only %d (graph, conditioned walked node, condition) "
+                 "combinations" % len(cond_combos))
   run.put("traces_validated_against_impl", total)
   run.put("evaluations", total)
   run.put("distinct_nontrivial", len({json.dumps(h, sort_keys=True) for h in hists if sum(
